@@ -677,10 +677,15 @@ class Tee:
             raise
 
     def __enter__(self):
-        return MirrorLeecher(self.__file, self.__caches)
+        self.__leecher = MirrorLeecher(self.__file, self.__caches)
+        return self.__leecher
 
     def __exit__(self, exc_type, exc_value, traceback):
         try:
+            if exc_type is None:
+                # The tar reader stops at the end-of-archive marker. Drain
+                # the rest of the stream so that the caches get all of it.
+                while self.__caches and self.__leecher.read(0x10000): pass
             if self.__owner: self.__file.close()
             if exc_type is None:
                 while self.__caches:
